@@ -1129,7 +1129,12 @@ def probe_ugla(cuqi):
     st = {}
     for iface in ("exp", "legacy"):
         spec = dict(WITNESS_UGLA, iface=iface)
-        obs = observe(cuqi, spec)
+        obs = try_observe(cuqi, spec)
+        if "raised" in obs:
+            # the witness cannot even be drawn: reported through known_witnesses ("fixed defect has returned" / finding) and
+            # through the lattice, which keeps running in the repaired-model state
+            st[iface] = (True, "witness could not be drawn: " + obs["raised"], spec, obs)
+            continue
         fail = oracle_check(spec, obs)
         st[iface] = (fail is None, fail[1] if fail else "witness satisfies the documented local Gaussian", spec, obs)
     return st
@@ -1364,13 +1369,16 @@ def probe_flag2(cuqi):
                 "liks": [{"A": A, "b": [1.0, 2.0, 3.0, 4.0], "noise": {"form": "cov", "shape": "vector", "dim": 4, "value": [1.0, 4.0, 16.0, 0.25]}}],
                 "prior": {"kind": "gaussian", "mean": [1.0, -1.0, 2.0], "scalar_mean": False,
                           "g": {"form": "prec", "shape": "scalar", "dim": 3, "value": 4.0}}}
-        objs = build_shared(cuqi, spec)
-        with quiet():
-            s = make_sampler(cuqi, spec, objs["post"], [0.0] * 3)
-        before = np.array(s.M(np.array(basis(7, 0)), 2), dtype=float)
-        objs["y"].cov = np.array([4.0, 1.0, 1.0, 1.0])
-        after = np.array(s.M(np.array(basis(7, 0)), 2), dtype=float)
-        st[iface] = "captured" if np.array_equal(before, after) else "live"
+        try:
+            objs = build_shared(cuqi, spec)
+            with quiet():
+                s = make_sampler(cuqi, spec, objs["post"], [0.0] * 3)
+            before = np.array(s.M(np.array(basis(7, 0)), 2), dtype=float)
+            objs["y"].cov = np.array([4.0, 1.0, 1.0, 1.0])
+            after = np.array(s.M(np.array(basis(7, 0)), 2), dtype=float)
+            st[iface] = "captured" if np.array_equal(before, after) else "live"
+        except Exception:
+            st[iface] = "live"
     return st
 
 
@@ -1702,7 +1710,7 @@ def classify(meta, detail):
 def known_witnesses(ctx):
     import cuqi
     st = probe_ugla(cuqi)
-    out = {SIG_UGLA[i]: (not st[i][0], st[i][1]) for i in ("exp", "legacy")}
+    out = {SIG_UGLA[i]: ((not st[i][0]) or "raised" in st[i][3], st[i][1]) for i in ("exp", "legacy")}
     st2 = probe_flag2(cuqi)
     for i in ("exp", "legacy"):
         out[SIG_STALE[i]] = (st2[i] == "live", "witness history (A 4x3, noise cov [1,4,16,.25] re-assigned in place to [4,1,1,1]): flag 2 of the living "
